@@ -540,3 +540,71 @@ Proof.
   - exact w_keys_injective.
   - vm_compute. discriminate.
 Qed.
+
+(* ---------------------------------------------------------------- 8. sort.SliceStable, the commands together *)
+
+(* the documented contract of sort.SliceStable(list, sourceBefore) -- ordered, and elements
+   that compare equal (same source) keep their original order -- has exactly one solution,
+   the list [sort_by by_src] computes *)
+Theorem slice_stable_contract {A} (l l' : list (src * A)) :
+  sorted by_src l' -> (forall k, filter (has_src k) l' = filter (has_src k) l) -> l' = sort_by by_src l.
+Proof.
+  intros Hs H. apply (sort_by_unique by_src by_src_irrefl by_src_trans by_src_cotrans l l' Hs).
+  intros a. rewrite !filter_eqv_has_src. apply H.
+Qed.
+
+Theorem sort_src_contract {A} (l : list (src * A)) :
+  sorted by_src (sort_by by_src l) /\ Permutation (sort_by by_src l) l /\
+  forall k, filter (has_src k) (sort_by by_src l) = filter (has_src k) l.
+Proof.
+  split; [apply (sort_by_sorted by_src by_src_irrefl by_src_trans)|].
+  split; [apply sort_by_perm|].
+  intros k. destruct (filter (has_src k) l) as [|a t] eqn:E.
+  - destruct (filter (has_src k) (sort_by by_src l)) as [|b t'] eqn:E'; [reflexivity|exfalso].
+    assert (Hb : In b (filter (has_src k) (sort_by by_src l))) by (rewrite E'; left; reflexivity).
+    apply filter_In in Hb. destruct Hb as [Hb Kb].
+    assert (Hb' : In b (filter (has_src k) l)).
+    { apply filter_In. split; [|exact Kb]. eapply Permutation_in; [apply sort_by_perm|exact Hb]. }
+    rewrite E in Hb'. exact Hb'.
+  - assert (Ha : In a (filter (has_src k) l)) by (rewrite E; left; reflexivity).
+    apply filter_In in Ha. destruct Ha as [_ Ka]. apply has_src_spec in Ka. subst k.
+    rewrite <- E, <- !filter_eqv_has_src.
+    apply (sort_by_stable by_src by_src_irrefl by_src_trans by_src_cotrans).
+Qed.
+
+(* all commands of the model that read the journal, for two arrival orders with the same build *)
+Theorem commands_arrival l1 l2 :
+  build_sorted_b l1 = build_sorted_b l2 ->
+  (forall cfg, run_sorted (balance_table_of cfg) l1 = run_sorted (balance_table_of cfg) l2) /\
+  (forall cfg, run_sorted (balance_csv_of cfg) l1 = run_sorted (balance_csv_of cfg) l2) /\
+  (forall cfg tc, run_sorted (balance_text_of cfg tc) l1 = run_sorted (balance_text_of cfg tc) l2) /\
+  (forall repaired, run_sorted (check_of repaired) l1 = run_sorted (check_of repaired) l2) /\
+  (forall lenient, run_sorted (print_of lenient) l1 = run_sorted (print_of lenient) l2) /\
+  (forall lenient c, run_sorted (transcode_of lenient c) l1 = run_sorted (transcode_of lenient c) l2) /\
+  (forall cfg u, run_sorted (weights_csv_of cfg u) l1 = run_sorted (weights_csv_of cfg u) l2) /\
+  (forall fx cfg, run_sorted (returns_of fx cfg) l1 = run_sorted (returns_of fx cfg) l2).
+Proof. intros H. unfold run_sorted. rewrite H. repeat split. Qed.
+
+(* a file with an accrual: two transactions made from the directive at offset 0 *)
+Definition w_txn (desc : Z) : txn :=
+  mkTxn w_day [desc] (pair_build [s_Assets; [65]] [s_Assets; [66]] [67;72;70] (of_int 1) dec_nil) None.
+Definition w_file_c : list (src * directive) :=
+  file_directives [99;46;107;110;117;116] [(0, DTxn (w_txn 120)); (0, DTxn (w_txn 121))].
+
+Lemma w_files_hyp (f g : list (src * directive)) x y :
+  In f [w_file_c; w_file_a; w_file_b] -> In g [w_file_c; w_file_a; w_file_b] ->
+  In x f -> In y g -> s_path (fst x) = s_path (fst y) -> f = g.
+Proof.
+  intros [<-|[<-|[<-|[]]]] [<-|[<-|[<-|[]]]]; try reflexivity; cbn;
+    intros Hx Hy; repeat (destruct Hx as [<-|Hx]); try contradiction;
+    repeat (destruct Hy as [<-|Hy]); try contradiction; cbn; intros E; discriminate E.
+Qed.
+
+Theorem arrival_perm_both l1 l2 :
+  Permutation l1 l2 ->
+  (forall x y, In x l1 -> In y l1 -> fst x = fst y -> x = y) ->
+  build_sorted l1 = build_sorted l2 /\ build_sorted_b l1 = build_sorted_b l2.
+Proof.
+  intros P H. pose proof (arrival_perm l1 l2 P H) as E. split; [|exact E].
+  exact (f_equal b_days E).
+Qed.
